@@ -20,7 +20,8 @@ func init() {
 			"R6 every error recorded for a file is a fmt.Errorf naming the file and wrapping the cause, or the unwrapped error of a call that was given the path; patch loading errors are wrapped with the patch path. " +
 			"R7 a file that fails is skipped without changing the result for any other file: nothing created outside the per-file loop (buffers, maps, pointers) is written or handed to a mutating call inside it, apart from the position table, the error accumulators, the logger and the runner. " +
 			"NOT decided: the operating system's rename atomicity and crash behaviour (no fsync is required by the rule); whether messages are well worded." +
-			" R7 also: runner state is write-only while files are processed; R5 also: no deferred overwrite of Run's error.",
+			" R7 also: runner state is write-only while files are processed; R5 also: no deferred overwrite of Run's error." +
+			" R11 an unprocessable patch is reported (connectDots covers every '+' elision).",
 		Trusted:     commonTrusted,
 		Assumptions: append([]string{"os.Rename within one directory replaces the destination atomically (POSIX)", "errors returned by package os for a path (*PathError, *LinkError) name that path"}, commonAssumptions...),
 	})
